@@ -37,8 +37,14 @@ OVERHEAD = 9
 SIZES = (50, 128, 206, 480, 1024, 1476)
 
 
-def plen(k, seg=50):
-    return k * seg - OVERHEAD
+def rq(k, seg=50):
+    """request payload length that yields exactly k full segments (6-octet segment header)"""
+    return k * (seg - 6) - OVERHEAD
+
+
+def rs(k, seg=50):
+    """response payload length that yields exactly k full segments (5-octet segment header)"""
+    return k * (seg - 5) - OVERHEAD
 
 
 # ----------------------------------------------------------------------------- judging
@@ -50,8 +56,8 @@ def transfers_of(sysm):
     for sn, req in sysm.submitted:
         inv = req.apduInvokeID
         rq, rs = cfg.reqs[sn - 1]
-        out.append(segmon.Transfer(cm, sm, 0, inv, segmon.private_transfer_data(sn, A.stream("req%d" % sn, rq)), cfg.c["maxapdu"]))
-        out.append(segmon.Transfer(sm, cm, 3, inv, segmon.private_transfer_data(sn, A.stream("resp%d" % sn, rs)), cfg.c["maxapdu"]))
+        out.append(segmon.Transfer(cm, sm, 0, inv, segmon.private_transfer_data(sn, A.stream("req%d" % sn, rq))))
+        out.append(segmon.Transfer(sm, cm, 3, inv, segmon.private_transfer_data(sn, A.stream("resp%d" % sn, rs))))
     return out
 
 
@@ -138,11 +144,11 @@ def sweep_cases(tier):
         ks = range(2, 10)
     for (wc, ws) in pairs:
         for k in ks:
-            for reqs in ([(plen(k), 0)], [(0, plen(k))], [(plen(k) + 1, plen(k) + 1)]):
+            for reqs in ([(rq(k), 0)], [(0, rs(k))], [(rq(k) + 1, rs(k) + 1)]):
                 add(c={"window": wc}, s={"window": ws}, reqs=reqs)
     # windows at the protocol limit
     for w in (16, 127):
-        add(c={"window": w}, s={"window": w}, reqs=[(plen(20), plen(20))])
+        add(c={"window": w}, s={"window": w}, reqs=[(rq(20), rs(20))])
     return out
 
 
@@ -150,7 +156,7 @@ def long_cases(tier):
     out = []
     ns = (257,) if tier == "quick" else (255, 256, 257, 300)
     for n in ns:
-        for reqs in ([(plen(n), 0)], [(0, plen(n))]):
+        for reqs in ([(rq(n), 0)], [(0, rs(n))]):
             for w in ((4,) if tier == "quick" else (1, 4, 127)):
                 out.append(Cfg(c={"window": w, "maxsegs": 65}, s={"window": w, "maxsegs": 65}, reqs=reqs, label="long%d" % n).to_json())
     return out
@@ -181,20 +187,20 @@ def fault_cfgs(tier):
         ks = range(2, 10)
     for (wc, ws) in wins:
         for k in ks:
-            for reqs in ([(plen(k), 0)], [(0, plen(k))]):
+            for reqs in ([(rq(k), 0)], [(0, rs(k))]):
                 single.append(Cfg(c={"window": wc, "retries": 3}, s={"window": ws, "retries": 3}, reqs=reqs, reorder=1, dupcap=1))
             if wc == ws and k in (2, 3, 5):
-                single.append(Cfg(c={"window": wc, "retries": 3}, s={"window": ws, "retries": 3}, reqs=[(plen(k) + 1, plen(k))], reorder=1, dupcap=1))
+                single.append(Cfg(c={"window": wc, "retries": 3}, s={"window": ws, "retries": 3}, reqs=[(rq(k) + 1, rs(k))], reorder=1, dupcap=1))
     single.append(Cfg(c={"retries": 3}, s={"retries": 3}, reqs=[(0, 0)]))
-    single.append(Cfg(c={"retries": 1}, s={"retries": 1}, reqs=[(plen(3), plen(3))]))
+    single.append(Cfg(c={"retries": 1}, s={"retries": 1}, reqs=[(rq(3), rs(3))]))
     # two segment sizes above 50 for single faults
     single.append(Cfg(c={"maxapdu": 128, "retries": 3}, s={"maxapdu": 128, "retries": 3}, reqs=[(300, 300)]))
     d = 2 if tier == "quick" else 3
     for w in ((2, 3) if tier == "quick" else (1, 2, 3, 4)):
         for k in (3, 5):
-            for reqs in ([(plen(k), 0)], [(0, plen(k))]):
+            for reqs in ([(rq(k), 0)], [(0, rs(k))]):
                 multi.append((Cfg(c={"window": w, "retries": 2}, s={"window": w, "retries": 2}, reqs=reqs, reorder=2, dupcap=1), d))
-    multi.append((Cfg(c={"window": 2, "retries": 1}, s={"window": 2, "retries": 1}, reqs=[(plen(3), plen(3))], reorder=2), 2))
+    multi.append((Cfg(c={"window": 2, "retries": 1}, s={"window": 2, "retries": 1}, reqs=[(rq(3), rs(3))], reorder=2), 2))
     return single, multi
 
 
@@ -238,7 +244,7 @@ def run(tier, seed, deadline):
     vclock.install()
     acc = Acc()
     # determinism probe
-    probe = Cfg(reqs=[(plen(3), plen(3))])
+    probe = Cfg(reqs=[(rq(3), rs(3))])
     a, pa = run_execution(probe, (0, 1))
     oa = (a.client.confirmations, a.wire.log, a.trace)
     b, pb = run_execution(probe, (0, 1))
